@@ -232,7 +232,33 @@ func (b *backend) put(key string, payload string) {
 	}
 }
 
+func (b *backend) remove(key string) {
+	segs := strings.Split("o2/components/"+key, "/")
+	m := b.root
+	for i, s := range segs {
+		if i == len(segs)-1 {
+			delete(m, s)
+			return
+		}
+		n, ok := m[s].(M)
+		if !ok {
+			return
+		}
+		m = n
+	}
+}
+
 func (b *backend) service() *local.Service {
+	b.write()
+	svc, err := local.NewService("file://" + b.path)
+	if err != nil || svc == nil {
+		fatal("NewService(file://%s): %v", b.path, err)
+	}
+	return svc
+}
+
+// write (re)writes the backing file - also behind the back of a service that is using it
+func (b *backend) write() {
 	var buf bytes.Buffer
 	enc := json.NewEncoder(&buf)
 	enc.SetEscapeHTML(false)
@@ -242,11 +268,6 @@ func (b *backend) service() *local.Service {
 	if err := os.WriteFile(b.path, buf.Bytes(), 0o644); err != nil {
 		fatal("write backend: %v", err)
 	}
-	svc, err := local.NewService("file://" + b.path)
-	if err != nil || svc == nil {
-		fatal("NewService(file://%s): %v", b.path, err)
-	}
-	return svc
 }
 
 func pathOf(comp, rt, role, entry string) string { return comp + "/" + rt + "/" + role + "/" + entry }
@@ -374,9 +395,29 @@ func doRnd(rec *vtrace.Recorder, scn int, c *tcase, file string) {
 var entryPath = map[string]string{"D1e": "c/PHYSICS/r/e", "D1f": "c/PHYSICS/r/f", "D1s": "c/PHYSICS/r/" + siblingName,
 	"D2e": "c/ANY/any/e", "D2f": "c/ANY/any/f", "D2s": "c/ANY/any/" + siblingName}
 
+// the four candidate entries c/RT/role/x of a lookup (Keys in spec/ConfigQuerySvc.tla)
+var keyQuery = map[string]qrec{"Pr": {"c", "PHYSICS", "r", "x"}, "Ar": {"c", "ANY", "r", "x"},
+	"Pa": {"c", "PHYSICS", "any", "x"}, "Aa": {"c", "ANY", "any", "x"}}
+
+func keyPath(k string) string {
+	q, ok := keyQuery[k]
+	if !ok {
+		fatal("unknown candidate key %q", k)
+	}
+	return pathOf(q.Comp, q.Rt, q.Role, q.Entry)
+}
+
+func payloadX(k string, ver int) string {
+	if ver == 2 {
+		return "new:" + keyPath(k)
+	}
+	return "cfg:" + keyPath(k)
+}
+
 type sstep struct {
 	A     string     `json:"a"`
 	E     string     `json:"e"`
+	V     int        `json:"v"`
 	Vars  [][]string `json:"vars"`
 	Parts []part     `json:"parts"`
 }
@@ -384,6 +425,7 @@ type sstep struct {
 type scenario struct {
 	ID      int               `json:"id"`
 	Content map[string][]part `json:"content"`
+	Store   map[string]int    `json:"store"`
 	Steps   []sstep           `json:"steps"`
 }
 
@@ -409,8 +451,16 @@ func doScenario(rec *vtrace.Recorder, sc *scenario, file string) {
 		}
 		content[e] = parts
 	}
+	store := M{}
+	for k := range keyQuery {
+		v := sc.Store[k]
+		store[k] = v
+		if v != 0 {
+			be.put(keyPath(k), payloadX(k, v))
+		}
+	}
 	svc := be.service() // ONE service for the whole sequence
-	rec.Emit("Reset", "scn", sc.ID, "content", content)
+	rec.Emit("Reset", "scn", sc.ID, "content", content, "store", store)
 	for _, st := range sc.Steps {
 		switch st.A {
 		case "Process":
@@ -440,11 +490,33 @@ func doScenario(rec *vtrace.Recorder, sc *scenario, file string) {
 		case "Update":
 			src := source(st.Parts)
 			_, _, err := svc.ImportComponentConfiguration(entryQuery(st.E), src, false)
+			be.put(entryPath[st.E], src) // the harness' picture of the store follows what the service wrote
 			parts := st.Parts
 			if parts == nil {
 				parts = []part{}
 			}
 			rec.Emit("Update", "scn", sc.ID, "e", st.E, "path", entryPath[st.E], "parts", parts, "src", src, "ok", err == nil)
+		case "ExternalEdit": // somebody else rewrites the backing file; the service is not told
+			if st.V == 0 {
+				be.remove(keyPath(st.E))
+			} else {
+				be.put(keyPath(st.E), payloadX(st.E, st.V))
+			}
+			be.write()
+			rec.Emit("ExternalEdit", "scn", sc.ID, "e", st.E, "path", keyPath(st.E), "v", st.V)
+		case "Resolve":
+			kq := keyQuery[st.E]
+			res := M{"comp": "", "rt": "", "role": "", "entry": ""}
+			ok, raw := false, ""
+			if r, err := svc.ResolveComponentQuery(mkQuery(&kq)); err == nil && r != nil {
+				ok, raw = true, r.Raw()
+				res = M{"comp": r.Component, "rt": apricotpb.RunType_name[int32(r.RunType)], "role": r.RoleName, "entry": r.EntryKey}
+			}
+			rec.Emit("Resolve", "scn", sc.ID, "e", st.E, "path", keyPath(st.E), "ok", ok, "payload", raw, "res", res)
+		case "GetX":
+			kq := keyQuery[st.E]
+			g := got(svc.GetComponentConfiguration(mkQuery(&kq)))
+			rec.Emit("GetX", "scn", sc.ID, "e", st.E, "path", keyPath(st.E), "ok", g["ok"], "payload", g["payload"])
 		default:
 			fatal("scenario %d: unknown step %q", sc.ID, st.A)
 		}
